@@ -108,6 +108,9 @@ func calleeFullName(ci ssa.CallInstruction) string {
 	if f := cc.StaticCallee(); f != nil {
 		if o := origin(f).Object(); o != nil {
 			if fo, ok := o.(*types.Func); ok {
+				if cf := recordedCalleeName(fo); cf != "" {
+					return cf
+				}
 				return unrename(fo.Origin().FullName(), fo)
 			}
 		}
